@@ -968,6 +968,20 @@ def gen_history(rng):
   return [(rng.choice(MUT_CHOICES), [rng.randrange(-3, 4) for _ in range(6)]) for _ in range(rng.randrange(1, 5))]
 
 
+STD_BASES = {'params': nnx.Param, 'batch_stats': nnx.BatchStat, 'cache': nnx.Cache,
+             'intermediates': nnx.Intermediate, 'perturbations': nnx.Perturbation}
+_REPOINT_TYPES = {}
+
+
+def repoint(name):
+  """register_variable_name(standard name, a user sub-class, overwrite=True); undone by RegistryGuard."""
+  if name not in _REPOINT_TYPES:
+    _REPOINT_TYPES[name] = type('User' + STD_BASES[name].__name__, (STD_BASES[name],), {})
+    TT.tok(_REPOINT_TYPES[name])
+  vl.register_variable_name(name, _REPOINT_TYPES[name], overwrite=True)
+  return _REPOINT_TYPES[name]
+
+
 def rng_counts(rngs):
   """stream name -> how many keys have been drawn from it"""
   return {name: int(stream.count.value) for name, stream in rngs.items()} if rngs else {}
@@ -1006,6 +1020,13 @@ def run_tonnx_case(ctx, spec, hist, placement, seeds, reqs, metas):
   for b in feat['boxes'] or ['none']:
     ctx.count('tonnx_boxes', b)
   with RegistryGuard():
+    # registry histories with overwrite: standard collection names re-pointed at user types before the
+    # bridge is used (any of the five) and, for collections the wrapper does not hold yet, between calls
+    repointed = list(seeds[4]) if len(seeds) > 4 and seeds[4] else []
+    for nm in repointed:
+      repoint(nm)
+    ctx.count('tonnx_repointed_before', '+'.join(sorted(repointed)) or 'none')
+    reg_at_init = reg_json()
     module = LGen(spec)
     x0 = jnp.ones((2, 3), jnp.int32)
     default_only = len(seeds) > 2 and seeds[2] and not feat['drop']
@@ -1077,7 +1098,7 @@ def run_tonnx_case(ctx, spec, hist, placement, seeds, reqs, metas):
     if err:
       ctx.violation('tonnx-' + err[0], 'after lazy_init: ' + err[1], case)
       return
-    reqs.append(('init_attrs', [_base_reg_json(), [], forest_json(V, lbox_json)]))
+    reqs.append(('init_attrs', [reg_at_init, [], forest_json(V, lbox_json)]))
     metas.append((case, 'init', impl_attrs_canon(wrapper_attrs(get()))))
     own_flags = [init_seed is None]  # per recorded init/apply: were the keys drawn from the wrapper's own rngs?
     for step, entry in enumerate(hist):
@@ -1096,6 +1117,11 @@ def run_tonnx_case(ctx, spec, hist, placement, seeds, reqs, metas):
         keys = {name: stream() for name, stream in twin.items()}
         kw = dict(kw, rngs=call_rngs)
       own_flags.append(callseed is None)
+      if len(seeds) > 5 and seeds[5] == step:
+        for nm in ('cache', 'intermediates', 'perturbations'):
+          if nm not in V:  # a collection the wrapper does not hold yet may still be re-pointed
+            repoint(nm)
+            ctx.count('tonnx_repointed_between_calls', nm)
       own_before = rng_counts(get().rngs)
       snapV = snapshot_vars(V)
       rr = call(lambda: module.apply(V, x, rngs=keys, **{k_: v_ for k_, v_ in kw.items() if k_ != 'rngs'}))
@@ -1272,14 +1298,14 @@ class NGen(nnx.Module):
           kw = {'sharding': sh[1], 'mesh': None, 'linen_meta_type': meta.Partitioned}
         else:
           kw = {'sharding': sh}
-        setattr(self, name, nnx.Param(iw((d, f), i + len(name)), **kw))
+        setattr(self, name, vl.variable_type_from_name('params')(iw((d, f), i + len(name)), **kw))
         d = f
       elif kind == 'count':
         setattr(self, layer[1], Counter(jnp.zeros((), jnp.int32)))
       elif kind == 'uparam':
         setattr(self, layer[1], SubParam(jnp.asarray(i + 1, jnp.int32)))
       elif kind == 'stat':
-        setattr(self, layer[1], nnx.BatchStat(jnp.zeros((), jnp.int32), tag='s'))
+        setattr(self, layer[1], vl.variable_type_from_name('batch_stats')(jnp.zeros((), jnp.int32), tag='s'))
       elif kind == 'substat':
         setattr(self, layer[1], SubStat(jnp.asarray(1, jnp.int32)))
       elif kind == 'subsubstat':
@@ -1397,6 +1423,10 @@ def run_tolinen_case(ctx, spec, hist, placement, seeds, reqs, metas):
   for l in spec:
     ctx.count('tolinen_layers', l[0])
   with RegistryGuard():
+    repointed = list(seeds[2]) if len(seeds) > 2 and seeds[2] else []
+    for nm in repointed:
+      repoint(nm)
+    ctx.count('tolinen_repointed_before', '+'.join(sorted(repointed)) or 'none')
     x0 = jnp.ones((2, 3), jnp.int32)
     keys = {'params': jax.random.key(seeds[0]), 'dropout': jax.random.key(seeds[1])}
     if placement == 'alone':
@@ -2140,7 +2170,8 @@ def run(ctx):
     spec = gen_spec(rng, rng.choice([0, 1, 2, 2, 3]), want_stat=rng.random() < 0.7)
     hist = gen_thistory(rng)
     placement = 'alone' if i % 3 else 'nnx-parent'
-    seeds = [rng.randrange(100), rng.randrange(100), rng.random() < 0.3, rng.randrange(2000, 3000) if rng.random() < 0.25 else None]
+    seeds = [rng.randrange(100), rng.randrange(100), rng.random() < 0.3, rng.randrange(2000, 3000) if rng.random() < 0.25 else None,
+             [nm for nm in STD_BASES if rng.random() < 0.5] if rng.random() < 0.4 else [], rng.choice([None, 0, 1])]
     case = {'kind': 'tonnx', 'spec': spec, 'hist': [list(e) for e in hist], 'placement': placement, 'seeds': seeds}
     guarded(ctx, case, lambda: run_tonnx_case(ctx, spec, hist, placement, seeds, reqs, metas))
     if i == 0:
@@ -2157,7 +2188,7 @@ def run(ctx):
     nspec = gen_nspec(rng, rng.choice([0, 1, 2]))
     hist = gen_lhistory(rng)
     placement = 'alone' if i % 3 else 'linen-parent'
-    seeds = [rng.randrange(100), rng.randrange(100)]
+    seeds = [rng.randrange(100), rng.randrange(100), [nm for nm in ('params', 'batch_stats', 'cache') if rng.random() < 0.5] if rng.random() < 0.4 else []]
     case = {'kind': 'tolinen', 'spec': nspec, 'hist': [[m, xs] for m, xs in hist], 'placement': placement, 'seeds': seeds}
     guarded(ctx, case, lambda: run_tolinen_case(ctx, nspec, hist, placement, seeds, reqs, metas))
     if i == 0:
